@@ -30,10 +30,13 @@ Ev(L, M, e, X) ==
                                   [lo |-> Ev(L, M, e.rhs, a.lo).lo, hi |-> Ev(L, M, e.rhs, a.hi).hi]
     [] e.type = "union"        -> LET a == Ev(L, M, e.lhs, X) b == Ev(L, M, e.rhs, X) IN
                                   [lo |-> a.lo \cup b.lo, hi |-> a.hi \cup b.hi]
-    [] e.type = "intersection" -> LET a == Ev(L, M, e.lhs, X) b == Ev(L, M, e.rhs, X) IN
-                                  [lo |-> a.lo \cap b.lo, hi |-> a.hi \cap b.hi]
-    [] e.type = "difference"   -> LET a == Ev(L, M, e.lhs, X) b == Ev(L, M, e.rhs, X) IN
-                                  [lo |-> a.lo \ b.hi, hi |-> a.hi \ b.lo]
+    \* an expression denotes a function of ONE source asset; on a set of sources it is the union over the sources.
+    \* Field, collect, union, subtype filter and closure distribute over that union; intersection and difference do
+    \* not ( a.(b - c) means "for every asset reached by a: its b minus ITS c" ), so they are evaluated pointwise
+    [] e.type = "intersection" -> [lo |-> UNION { Ev(L, M, e.lhs, {x}).lo \cap Ev(L, M, e.rhs, {x}).lo : x \in X },
+                                   hi |-> UNION { Ev(L, M, e.lhs, {x}).hi \cap Ev(L, M, e.rhs, {x}).hi : x \in X }]
+    [] e.type = "difference"   -> [lo |-> UNION { Ev(L, M, e.lhs, {x}).lo \ Ev(L, M, e.rhs, {x}).hi : x \in X },
+                                   hi |-> UNION { Ev(L, M, e.lhs, {x}).hi \ Ev(L, M, e.rhs, {x}).lo : x \in X }]
     [] e.type = "subType"      -> LET a == Ev(L, M, e.stepExpression, X) IN
                                   [lo |-> {y \in a.lo : IsSub(L, M.type[y], e.subType)},
                                    hi |-> {y \in a.hi : IsSub(L, M.type[y], e.subType)}]
